@@ -597,10 +597,13 @@ EXPECT = ["C14.Cantor.proj_pair", "C14.Cantor.pair_proj", "C14.Szudzik.proj_pair
 
 
 def main(tier):
-    bounds = {"quick": "x,y < 2^10 (z < 2^20); Pepis-Kalmar y <= 6; Rosenberg-Strong 3-d coordinates <= 8; PairingToZ1d intervals up to [-2,4], "
-                       "call orders of length 2; lazy product sizes <= 3, d <= 3; StatesManager on 1-d grids up to 3+3 and 3x3",
-              "thorough": "x,y < 2^26 (z < 2^52); Pepis-Kalmar y <= 16; Rosenberg-Strong 3-d coordinates <= 64; PairingToZ1d L,R <= 6, call "
-                          "orders of length 3; lazy product sizes <= 4, d <= 3; StatesManager 1-d up to 4+4, 2-d 5x5, 3-d 3x3x3; IEEE sqrt lemma z < 2^52",
+    bounds = {"quick": "Szudzik and Rosenberg-Strong 2-d: all naturals (no bound); Cantor x,y <= 16, z <= 256 (one path per integer root); Pepis-Kalmar x <= 2^8, "
+                       "y <= 6, z <= 2^8; Rosenberg-Strong 3-d coordinates <= 6, z < 7^3 and the windows around 5773^3 and 5774^3; PairingToZd 2-d unbounded, "
+                       "3-d coordinates <= 3; PairingToZ1d intervals up to [-3,3], call orders of length 2; lazy product sizes <= 3, d <= 3; "
+                       "StatesManager on 1-d grids up to 3+3, 2-d 3x3 and the asymmetric [-1,2]^2, [-2,1]^2, 3-d 3x3x3",
+              "thorough": "Cantor x,y <= 32, z <= 2^14; Pepis-Kalmar x <= 2^20, y <= 16; Rosenberg-Strong 3-d coordinates <= 20, z < 21^3; PairingToZd 3-d coordinates <= 8; "
+                          "PairingToZ1d L,R <= 4, call orders of length 3; lazy product sizes <= 4, d <= 3; StatesManager 1-d up to 4+4, 2-d 5x5 and asymmetric up to "
+                          "[-2,3]^2, 3-d 3x3x3 and [-1,2]^3 (completeness and soundness); IEEE sqrt lemma z < 2^52",
               "outside": "HyperbolicPairing (sympy.factorint, divisor sums, Halley iteration: no encoding); libm pow accuracy for z**(1/3); "
                          "indices beyond the bounds"}
     return run_check(PID, tier, harnesses(tier), expect=EXPECT, bounds=bounds,
